@@ -68,7 +68,7 @@ var c6Direct = []c6spec{
 var c6TypeDecl = map[string]string{
 	"Boolean": "bool", "Byte": "int8", "UnsignedByte": "uint8", "Short": "int16", "UnsignedShort": "uint16",
 	"Int": "int32", "Long": "int64", "Float": "float32", "Double": "float64", "Angle": "Byte",
-	"UUID": "uuid.UUID", // github.com/google/uuid: `type UUID [16]byte` (outside the repository: trusted)
+	"UUID":     "uuid.UUID", // github.com/google/uuid: `type UUID [16]byte` (outside the repository: trusted)
 	"Position": "struct{X,Y,Z int}", "VarInt": "int32", "VarLong": "int64", "String": "string",
 	"ByteArray": "[]byte", "PluginMessageData": "[]byte", "FixedBitSet": "[]byte", "BitSet": "[]int64",
 }
@@ -408,7 +408,7 @@ func (w *c6w) errEx(e ast.Expr) string {
 // ---------------------------------------------------------------------------------------------- I/O calls
 
 type c6io struct {
-	kind string   // write readByte readFull callW callR toBytes
+	kind string // write readByte readFull callW callR toBytes
 	call *ast.CallExpr
 	lhs  []ast.Expr
 	tok  token.Token
